@@ -6,7 +6,7 @@ OUT = os.path.join(ROOT, "seeded")
 os.makedirs(OUT, exist_ok=True)
 n = 0
 jobs = []
-for rnd, rawname in ((1, "seeded_raw"), (2, "seeded_raw2"), (3, "seeded_raw3"), (4, "seeded_raw4"), (5, "seeded_raw5"), (6, "seeded_raw6"), (7, "seeded_raw7"), (8, "seeded_raw8")):
+for rnd, rawname in ((1, "seeded_raw"), (2, "seeded_raw2"), (3, "seeded_raw3"), (4, "seeded_raw4"), (5, "seeded_raw5"), (6, "seeded_raw6"), (7, "seeded_raw7"), (8, "seeded_raw8"), (9, "seeded_raw9")):
     RAW = os.path.join(ROOT, rawname)
     matrix = {}
     mp = os.path.join(RAW, "matrix.tsv")
@@ -18,7 +18,7 @@ for rnd, rawname in ((1, "seeded_raw"), (2, "seeded_raw2"), (3, "seeded_raw3"), 
     # rounds without a full matrix: the check of the seed's own property (tools/seed_diag.sh), last run wins
     for name in ("diag.tsv", "diag_final.tsv"):
         dp = os.path.join(RAW, name)
-        if os.path.exists(dp) and not os.path.exists(mp):
+        if os.path.exists(dp) and (name == "diag_final.tsv" or not os.path.exists(mp)):
             for line in open(dp):
                 parts = line.rstrip("\n").split("\t")
                 if len(parts) > 1 and "=" in parts[1]:
